@@ -299,6 +299,17 @@ func (w *World) Apply(op Op) {
 			w.fail("close-err", fmt.Sprintf("Close returned %v", err))
 		}
 		w.open()
+	case "reopennc":
+		// Close, then a new handle that does NOT call Create: the collection is loaded lazily by the next call
+		if err := w.DB.Close(); err != nil {
+			w.fail("close-err", fmt.Sprintf("Close returned %v", err))
+		}
+		vfs.Cur = w.FS
+		w.DB = sod.Open(w.Root)
+	case "repair":
+		if err := w.DB.Repair(&Rec{}); err != nil {
+			w.fail("repair-err", fmt.Sprintf("Repair on a healthy database returned %v", err))
+		}
 	case "abandon":
 		// synchronous mode: every mutating call commits, the handle is simply dropped
 		w.open()
